@@ -133,6 +133,15 @@ def tname(n):
     return "t" + n
 
 
+# Row tokens of the specification -> key values.  Not monotonic on purpose: consecutive INSERTs get
+# overlapping key ranges, so that on a primary-key table a sorted scan alternates between row-sets.
+KEYMAP = {1: 1, 2: 6, 3: 3, 4: 8, 5: 2, 6: 7, 7: 4, 8: 9, 9: 5, 10: 10}
+
+
+def key(r):
+    return KEYMAP.get(r, r + 20)
+
+
 def stmt_sql(e, obs_before, pk, rnd):
     a = e["a"]
     if a == "ct":
@@ -146,13 +155,11 @@ def stmt_sql(e, obs_before, pk, rnd):
     if a == "dt":
         return f"drop table {tname(e['n'])}"
     if a == "ins":
-        vals = ", ".join(f"({r}, {r * 10})" for r in e["rows"])
+        vals = ", ".join(f"({key(r)}, {key(r) * 10})" for r in e["rows"])
         return f"insert into {tname(e['n'])} values {vals}"
     if a == "del":
         rows = sorted(e["rows"])
-        if len(rows) == 1:
-            return f"delete from {tname(e['n'])} where a = {rows[0]}"
-        return f"delete from {tname(e['n'])} where a <= {rows[-1]}"
+        return f"delete from {tname(e['n'])} where " + " or ".join(f"a = {key(r)}" for r in rows)
     raise ValueError(a)
 
 
@@ -239,7 +246,7 @@ def exp_state(db, names):
         elif v["k"] == "view":
             out[n] = "view"
         else:
-            out[n] = sorted([r, r * 10] for r in v["rows"])
+            out[n] = sorted([key(r), key(r) * 10] for r in v["rows"])
     return out
 
 
